@@ -369,7 +369,9 @@ func (f *Frame) execInstr(ins ssa.Instruction, st *State, reach Term) {
 		}
 		t := f.vc.freshConst("closure", sFn)
 		f.vc.assume(T(sBool, "(not (= %s 0))", t.S))
-		f.vals[x] = &Closure{Fn: x.Fn.(*ssa.Function), Bindings: binds, Term: t}
+		cl := &Closure{Fn: x.Fn.(*ssa.Function), Bindings: binds, Term: t}
+		f.vals[x] = cl
+		f.closurePre(cl, st, reach, x.Pos())
 	case *ssa.MakeMap:
 		f.vals[x] = f.makeMap(x, st)
 	case *ssa.MakeSlice:
